@@ -37,6 +37,13 @@ const sigCountRefresh = "c11-ready-survives-count-refresh"
 // whatever the pods look like.
 const sigBGDepRetry = "c11-completed-unfinished-deployment-bluegreen-retry"
 
+// sigDepPartBack: partition-style Deployment UpgradeBatch compares the current and the desired
+// partition by scaling both against 10,000,000, so an integer partition always counts as smaller
+// than any percentage: when the plan value of the batch being upgraded is a percentage and the
+// Deployment carries an integer partition, the partition is overwritten even if that lowers the
+// number of updated pods (plan [5, "10%"] on 10 pods: 5 -> 1).
+const sigDepPartBack = "c01-knob-moved-back-deployment-partition"
+
 // sigBGDepWait: blue-green Deployment Finalize accepts readyReplicas == updatedReplicas plus
 // available within maxUnavailable as "all pods updated and ready"; that also holds while
 // (unready) old-revision pods still exist.
@@ -119,6 +126,7 @@ type machine struct {
 	actions     []Action
 	steps       int
 	lastDisturb int
+	idSeq       int
 	wUID        string
 	podSeq      int
 	observedGen int64 // what the workload controller has observed of the (stable) workload
@@ -485,6 +493,22 @@ func (m *machine) reconcile() {
 			return
 		}
 	}
+	// Input class of the known finding sigDepPartBack: an UpgradeBatch on a partition-style
+	// Deployment that carries an integer partition while the batch value is a percentage that
+	// means fewer pods. Not executed.
+	if knownOpen[sigDepPartBack] && m.sc.Plane == pDepPart && pre != nil && pre.DeletionTimestamp == nil && pre.Status.Phase == v1beta1.RolloutPhaseProgressing &&
+		(pre.Status.CanaryStatus.CurrentBatchState == v1beta1.UpgradingBatchState || pre.Status.CanaryStatus.CurrentBatchState == "") &&
+		pre.Spec.ReleasePlan.BatchPartition != nil && int(pre.Status.CanaryStatus.CurrentBatch) < len(pre.Spec.ReleasePlan.Batches) {
+		if d, ok := m.getWorkload().(*apps.Deployment); ok && d != nil && d.Annotations[v1alpha1.DeploymentStrategyAnnotation] != "" {
+			var st v1alpha1.DeploymentStrategy
+			_ = json.Unmarshal([]byte(d.Annotations[v1alpha1.DeploymentStrategyAnnotation]), &st)
+			v := pre.Spec.ReleasePlan.Batches[pre.Status.CanaryStatus.CurrentBatch].CanaryReplicas
+			if st.Partition.Type == intstr.Int && isPercent(v) && desiredFor(pDepPart, v, int(*d.Spec.Replicas)) < m.exposureOf(d, nil) {
+				vlib.Excluded(m.chk, sigDepPartBack)
+				return
+			}
+		}
+	}
 	// Input class of the known finding sigBGDepWait: a first Finalize attempt (WaitResume) on a
 	// blue-green Deployment whose status has readyReplicas == updatedReplicas while old-revision
 	// pods are still counted. Not executed.
@@ -797,7 +821,7 @@ func (m *machine) onKnobWrite(w *writeRec, isCanary bool) {
 		}
 	}
 	if after < before {
-		m.violate("c01", "c01-knob-moved-back", "controller write to %s %s lowered exposure %d -> %d while batchPartition=%d", w.GVK.Kind, w.Key.Name, before, after, *plan.BatchPartition)
+		m.violate("c01", "c01-knob-moved-back-"+m.sc.Plane, "controller write to %s %s lowered exposure %d -> %d while batchPartition=%d", w.GVK.Kind, w.Key.Name, before, after, *plan.BatchPartition)
 	} else if m.epochHave && after < m.epochExposure {
 		m.violate("c01", "c01-knob-moved-back-in-epoch", "controller write to %s %s set exposure %d below the %d of an earlier controller write of the same epoch", w.GVK.Kind, w.Key.Name, after, m.epochExposure)
 	}
